@@ -12,6 +12,7 @@ def sub_times(sc):
 
 def run_real_multi(sc, build, follow=False):
     w = vt.World(sc.get("clock", "test"))
+    w.as_observer = bool(sc.get("as_observer"))
     vt.make_sources(w, sc["sources"])
     obs = build(w, sc)
     recs = []
